@@ -198,10 +198,13 @@ type scenario struct {
 	// package-operator.run/revision annotation (a manifest exported from a live cluster);
 	// the recorded revision must still be the adopting revision's own
 	Preset string `json:"preset"`
+	// Faults: budget of "one request of a revision's pass (the preflight dry run included) is
+	// answered 409 or 500 without taking effect"
+	Faults int `json:"faults"`
 }
 
 func (sc scenario) name() string {
-	return fmt.Sprintf("%s delegated=%03b cp=%s users=%d edits=%d restarts=%d conflicts=%d longLived=%v rv0=%d preset=%q", sc.Kind, sc.Mask, sc.CP, sc.Users, sc.Edits, sc.Restarts, sc.Conflicts, sc.LongLived, sc.RV0, sc.Preset)
+	return fmt.Sprintf("%s delegated=%03b cp=%s users=%d edits=%d restarts=%d conflicts=%d longLived=%v rv0=%d preset=%q faults=%d", sc.Kind, sc.Mask, sc.CP, sc.Users, sc.Edits, sc.Restarts, sc.Conflicts, sc.LongLived, sc.RV0, sc.Preset, sc.Faults)
 }
 
 var chainObjs = [][]string{{"a", "b"}, {"a", "b", "c"}, {"a", "c", "d"}}
@@ -258,6 +261,7 @@ func system(sc scenario) *world.System {
 			w.Budget["user"] = sc.Users
 			w.Budget["restart"] = sc.Restarts
 			w.Budget["conflict"] = sc.Conflicts
+			w.Budget["fault"] = sc.Faults
 			return w
 		},
 		Events: func(w *world.World) []world.Event {
@@ -265,6 +269,13 @@ func system(sc scenario) *world.System {
 			evs = append(evs, osw.GCEvent(w)...)
 			evs = append(evs, osw.CrashEvents(w)...)
 			evs = append(evs, osw.ConflictEventsAll(w)...)
+			if w.Budget["fault"] > 0 {
+				for _, k := range w.S.SortedKeys() {
+					if k.Group == "package-operator.run" && k.Kind == "ObjectSet" {
+						evs = append(evs, osw.FaultEvents(w, world.CtrlObjectSet, k.Name, []world.FaultKind{world.ConflictBefore, world.ErrBefore})...)
+					}
+				}
+			}
 			if sc.Kind == "deployment" {
 				if e := w.Budget["edit"]; e > 0 {
 					tmpls := [][]string{{"a", "c"}, {"a", "b"}}
@@ -319,6 +330,7 @@ func scenarios(quick bool) []scenario {
 		{Kind: "chain2", Restarts: 1, Conflicts: 1},
 		{Kind: "chain2", Mask: 0b10, Restarts: 1},
 		{Kind: "chain2", LongLived: true},
+		{Kind: "chain2", Faults: 1},
 		{Kind: "chain2", CP: "None", Preset: "1"},
 		{Kind: "chain2", Preset: "9"},
 		{Kind: "chain3", LongLived: true},
@@ -343,7 +355,7 @@ func scenarios(quick bool) []scenario {
 
 func run(o checks.Opts) *report.Report {
 	rep := report.New("C02", "bfs")
-	rep.Rule = "explicit-state BFS to closure: chains r1{a,b} <- r2{a,b,c} <- r3{a,c,d} of hand-made ObjectSets with previous lists (two systems run all passes of a history in one long-lived operator process) (local or delegated phase per revision, collisionProtection Prevent/IfNoController/None) and an ObjectDeployment rolling T1{a,b} -> T2{a,c} -> T1; events = reconcile of every ObjectSet / ObjectSetPhase / ObjectDeployment in any order, user pausing / archiving / deleting any revision mid-handover, garbage collector, (budgeted) operator crash before request i of a pass and a foreign write landing before write i of a pass; monitor on every effective write to a managed object + state invariant"
+	rep.Rule = "explicit-state BFS to closure: chains r1{a,b} <- r2{a,b,c} <- r3{a,c,d} of hand-made ObjectSets with previous lists (two systems run all passes of a history in one long-lived operator process) (local or delegated phase per revision, collisionProtection Prevent/IfNoController/None) and an ObjectDeployment rolling T1{a,b} -> T2{a,c} -> T1; events = reconcile of every ObjectSet / ObjectSetPhase / ObjectDeployment in any order, user pausing / archiving / deleting any revision mid-handover, garbage collector, (budgeted) operator crash before request i of a pass and a foreign write landing before write i of a pass, one request of a revision's pass answered 409 / 500 without effect; monitor on every effective write to a managed object + state invariant"
 	scs := scenarios(o.Quick())
 	rep.Bounds["systems"] = len(scs)
 	for i, sc := range scs {
@@ -548,9 +560,9 @@ func init() {
 		Subs: []*checks.Sub{
 			{Name: "bfs", Shards: func(t string) int {
 				if t == "thorough" {
-					return 19
+					return 20
 				}
-				return 12
+				return 15
 			}, Run: run, Replay: replay, Parallel: true},
 			{Name: "interleavings", Shards: func(string) int { return 8 }, Run: runIL, Replay: replayIL},
 			{Name: "cluster-twin", Shards: func(string) int { return 4 }, Run: func(o checks.Opts) *report.Report { return twin.Run("C02", twinScenarios(o.Quick()), o) }, Replay: twin.Replay, Parallel: true},
